@@ -105,7 +105,19 @@ func C09Scenarios(tier string) []*h.Scenario {
 		ev = append(ev, h.Event{Label: "pending-pod(700m)", Apply: func(hh *h.Hist) { hh.W.AddPod(podOn(g3, "", 700)) }}, evClearPending(g3), evRestart())
 		return ev
 	}
-	return []*h.Scenario{s, &s2, &s3}
+	// more nodes become removable in one scan than any removal rate: whatever is not removed at
+	// once must still respect a cordon placed afterwards
+	s4 := *s
+	s4.Name = "c09.many-expired"
+	s4.Init = func(hh *h.Hist) {
+		a := InitASGs(hh)[0]
+		n1 := hh.W.AddNode(a, sim.NodeOpt{Age: 20 * Q})
+		hh.W.AddPod(podOn(g, n1.Name, 500))
+		for i := 0; i < 5; i++ {
+			hh.W.AddNode(a, sim.NodeOpt{Age: time.Duration(21+i) * Q, TaintAge: dp(time.Duration(3+i) * Q)})
+		}
+	}
+	return []*h.Scenario{s, &s2, &s3, &s4}
 }
 
 func init() {
